@@ -275,9 +275,10 @@ class TagIndex(Index):
             if len(tag) >= 2 and (
                 len(tag[0]) == 1 or tag[0] in ("expiration", "delegation")
             ):
-                if isinstance(tag[1], (list, tuple)):
-                    # a nested array has no stable text form (it is a list when
-                    # written, a tuple when read back): it cannot be indexed
+                if isinstance(tag[1], (list, tuple, dict)):
+                    # a nested array or object has no stable text form (an array
+                    # is a list when written and a tuple when read back, also
+                    # inside an object): it cannot be indexed
                     continue
                 yield self.to_key((tag[0], str(tag[1])))
 
